@@ -2,6 +2,7 @@ import BstreamVerif.Drv.Range
 import BstreamVerif.Drv.Cursor
 import BstreamVerif.Drv.Gates
 import BstreamVerif.Drv.Server
+import BstreamVerif.Drv.ForkableDrv
 /-
 bsmodel: reads the harness file (op / impl lines grouped in cases) on stdin, prints for every `op`
 line the model's answer (`model …`) and the monitor verdict on the implementation's answer.
@@ -22,6 +23,7 @@ def statefulCase (suite : String) (hdr : List String) (body : List (List String)
   match suite with
   | "gates" | "gator" | "minfilter" | "tripper" => some (GatesDrv.handle hdr body)
   | "server" => some (ServerDrv.handle hdr body)
+  | "forkable" => some (ForkableDrv.handle hdr body)
   | _ => none
 
 def processCase (out : IO.FS.Stream) (hdr : List String) (body : Array (List String)) : IO Unit := do
